@@ -9,7 +9,7 @@ from .common import Exc
 
 THEOREMS = ["C14_safely_quote_spec", "C14_safely_quote_tokens", "C14_safely_quote_bytes", "C14_safely_quote_idem",
             "C14_upper_quoted_spec", "C14_upper_quoted_tokens", "C14_upper_quoted_bytes", "C14_upper_quoted_idem",
-            "C14_untok_tokens", "C14_tokens_untok", "C14_delims_ok", "C14_unquote_no_raw_space", "C14_unquote_plain_text", "C14_unquote", "C14_unquote_general",
+            "C14_untok_tokens", "C14_tokens_untok", "C14_delims_ok", "C14_unquote_no_raw_space", "C14_unquote_plain_text", "C14_unquote", "C14_unquote_general", "C14_unquote_idempotent", "C14_unquote_idempotent_general", "C14_unquote_functional",
             "(safely_unquote_*: the decider unquote_ok is evaluated on every generated input for model and implementation; "
             "proved: the whole decider for every string (any raw text) whose escapes are ASCII bytes; for all strings: no raw space left, plain text untouched; escapes >= %80 (utf-8 flushing): decided here, not proved — partial)"]
 REGEXES = ["ASCII_RE", "QUOTED_SPLIT_RE", "QUOTED_RE", "LOWERCASE_QUOTED_RE"]
